@@ -49,8 +49,11 @@ VARIABLES pc,      \* "build" (list being edited) | "done" (just after a call) |
           rects,   \* the module's list of rectangles, in list order
           roles,   \* roles[k] = Rectangle.location of the object at position k
           given,   \* the last call: the list and the roles as handed in, and src (where each object came from)
-          result   \* what the last call returned (1 / 0), -1 = no call since the last edit
-vars == <<pc, rects, roles, given, result>>
+          result,  \* what the last call returned (1 / 0), -1 = no call since the last edit
+          net,     \* netlist machine: the modules, each [rects, roles, ok, cur] (see section 4)
+          ops      \* netlist machine: the operations so far
+nvars == <<net, ops>>
+vars == <<pc, rects, roles, given, result, net, ops>>
 
 (***************************************************************************)
 (* Roles (Rectangle.StogLocation)                                          *)
@@ -194,7 +197,7 @@ LatticeRects == { Tup(r) : r \in RectsOn(0, NX, 0, NY) }
 Key(t) == ((t[1] * (NY + 1) + t[2]) * (NX + 1) + t[3]) * (NY + 1) + t[4]
 
 NoCall == [rects |-> <<>>, roles |-> <<>>, src |-> <<>>]
-Init == pc = "build" /\ rects = <<>> /\ roles = <<>> /\ given = NoCall /\ result = -1
+InitList == pc = "build" /\ rects = <<>> /\ roles = <<>> /\ given = NoCall /\ result = -1 /\ net = <<>> /\ ops = <<>>
 
 \* Module.add_rectangle: a new object, which carries NO_POLYGON (Rectangle.__init__), is appended.
 \* May follow a call: the older objects then keep the roles that call gave them.
@@ -204,7 +207,7 @@ AddRect == /\ pc = "build" \/ (pc = "done" /\ Len(rects) <= HISTLEN)
                  /\ (EMIT /\ rects # <<>>) => Key(t) >= Key(rects[Len(rects)])     \* EMIT: non-decreasing keys
                  /\ rects' = Append(rects, t)
            /\ roles' = Append(roles, NOPOLY)
-           /\ pc' = "build" /\ given' = NoCall /\ result' = -1
+           /\ pc' = "build" /\ given' = NoCall /\ result' = -1 /\ UNCHANGED nvars
 
 \* The caller reorders the list (two neighbours change places; every order is reachable by repetition,
 \* and AddRect already builds every order from scratch); roles stay with their objects.
@@ -213,7 +216,7 @@ Permute == /\ ~EMIT /\ pc = "done" /\ Len(rects) >= 2 /\ Len(rects) <= HISTLEN
                  LET p == SwapIdx(Len(rects), i, i + 1) IN
                  /\ rects' = [k \in 1..Len(rects) |-> rects[p[k]]]
                  /\ roles' = [k \in 1..Len(rects) |-> roles[p[k]]]
-           /\ pc' = "build" /\ given' = NoCall /\ result' = -1
+           /\ pc' = "build" /\ given' = NoCall /\ result' = -1 /\ UNCHANGED nvars
 
 \* One call of create_stog on the list rs whose objects carry the roles ro.
 RecogniseOn(rs, ro) == LET c == CreateStog(rs, ro) IN
@@ -221,21 +224,94 @@ RecogniseOn(rs, ro) == LET c == CreateStog(rs, ro) IN
                          /\ given' = [rects |-> rs, roles |-> ro, src |-> c.src]
 Recognise == /\ ~EMIT /\ pc = "build" /\ Len(rects) >= 1          \* create_stog asserts a non-empty list
              /\ RecogniseOn(rects, roles)
-             /\ pc' = "done"
+             /\ pc' = "done" /\ UNCHANGED nvars
 
 \* behaviour generation: every multiset of 1..MAXR lattice rectangles exactly once (as its sorted list);
 \* the harness runs it in every order, fresh and after a call on the list without its last element.
 Emit == /\ EMIT /\ pc = "build" /\ Len(rects) >= 1
         /\ PrintT(ToJson([rects |-> rects]))
-        /\ pc' = "emitted" /\ UNCHANGED <<rects, roles, given, result>>
+        /\ pc' = "emitted" /\ UNCHANGED <<rects, roles, given, result, nvars>>
 
-Next == AddRect \/ Permute \/ Recognise \/ Emit
+(***************************************************************************)
+(* 4. NETLIST MACHINE: recognition on LIVE objects                          *)
+(*                                                                         *)
+(* A loaded netlist holds modules whose rectangles have been recognised     *)
+(* (Netlist runs create_stog on every module it loads).  Flows then change  *)
+(* the rectangles IN PLACE through the public objects -- Module.            *)
+(* recenter_rectangles does `r.center.x += ..`, the flip of glbfloor does   *)
+(* `r.center.x = ..`, Netlist.assign_rectangles installs new unlabelled     *)
+(* rectangles -- and run recognition again, for one module                  *)
+(* (Module.create_stog) or for all (Netlist.create_stogs).  The property    *)
+(* has to hold for the CURRENT geometry: after a recognition every module   *)
+(* it covered carries the roles its current rectangles deserve.            *)
+(* A module is [rects, roles, ok (has_stog: 1 / 0), cur (1: recognised     *)
+(* since its geometry last changed)].                                      *)
+(***************************************************************************)
+NMODS == 2
+MAXNOPS == IF MAXR >= 4 THEN 2 ELSE 1          \* geometry changes before the final recognition (thorough / quick)
+Shapes == << << <<0, 0, 2, 2>>, <<2, 0, 3, 1>> >>,                    \* trunk with a branch on its east side
+             << <<0, 0, 1, 1>>, <<2, 2, 3, 3>> >>,                    \* two separate squares: no orthogon
+             << <<0, 1, 3, 2>>, <<1, 2, 2, 3>>, <<1, 0, 2, 1>> >>,    \* bar with a north and a south branch
+             << <<1, 0, 3, 2>>, <<0, 0, 1, 1>> >> >>                  \* trunk with a branch on its west side
+Loaded(rs) == LET c == CreateStog(rs, [k \in DOMAIN rs |-> NOPOLY]) IN [rects |-> c.rects, roles |-> c.roles, ok |-> c.ok, cur |-> 1]
+Fresh(rs) == [rects |-> rs, roles |-> [k \in DOMAIN rs |-> NOPOLY], ok |-> 0, cur |-> 0]
+Geometry(n) == [m \in DOMAIN n |-> n[m].rects]
+InitNet == /\ pc = "net" /\ rects = <<>> /\ roles = <<>> /\ given = NoCall /\ result = -1
+           /\ \E f \in [1..NMODS -> DOMAIN Shapes] :
+                 /\ net = [m \in 1..NMODS |-> Loaded(Shapes[f[m]])]
+                 /\ ops = << [op |-> "load", mods |-> [m \in 1..NMODS |-> Shapes[f[m]]]] >>
+Init == InitList \/ InitNet
+
+Shifted(t, d) == <<t[1] + d[1], t[2] + d[2], t[3] + d[1], t[4] + d[2]>>
+\* one rectangle of module m moves by d in place: it keeps the role it carries
+MoveOn(m, k, d) == /\ pc = "net"
+                   /\ net' = [net EXCEPT ![m].rects[k] = Shifted(@, d), ![m].cur = 0]
+                   /\ UNCHANGED <<pc, rects, roles, given, result>>
+\* module m is mirrored about the vertical axis of its bounding box (the flip): x -> X1 + X2 - x
+MirrorOn(m) == /\ pc = "net"
+               /\ LET rs == net[m].rects
+                      sum == Min({ rs[k][1] : k \in DOMAIN rs }) + Max({ rs[k][3] : k \in DOMAIN rs })
+                  IN net' = [net EXCEPT ![m].rects = [k \in DOMAIN rs |-> <<sum - rs[k][3], rs[k][2], sum - rs[k][1], rs[k][4]>>], ![m].cur = 0]
+               /\ UNCHANGED <<pc, rects, roles, given, result>>
+\* Netlist.assign_rectangles: module m gets new, unlabelled rectangles
+AssignOn(m, rs) == /\ pc = "net"
+                   /\ net' = [net EXCEPT ![m] = Fresh(rs)]
+                   /\ UNCHANGED <<pc, rects, roles, given, result>>
+Recognised(md) == LET c == CreateStog(md.rects, md.roles) IN [rects |-> c.rects, roles |-> c.roles, ok |-> c.ok, cur |-> 1]
+\* Module.create_stog() on module m
+RecModOn(m) == /\ pc = "net"
+               /\ net' = [net EXCEPT ![m] = Recognised(net[m])]
+               /\ UNCHANGED <<pc, rects, roles, given, result>>
+\* Netlist.create_stogs(): every module
+RecAllOn == /\ pc = "net"
+            /\ net' = [m \in DOMAIN net |-> Recognised(net[m])]
+            /\ UNCHANGED <<pc, rects, roles, given, result>>
+
+GeoOps == Cardinality({ k \in DOMAIN ops : ops[k].op \in {"move", "mirror", "assign"} })
+Ended == ops[Len(ops)].op \in {"rec", "recall"}
+NetStep == /\ pc = "net" /\ ~Ended
+           /\ \/ /\ GeoOps < MAXNOPS
+                 /\ \E m \in DOMAIN net : \E k \in {1, Len(net[m].rects)} : \E d \in {<<1, 0>>, <<0, 1>>} :
+                       MoveOn(m, k, d) /\ ops' = Append(ops, [op |-> "move", m |-> m, k |-> k, dx |-> d[1], dy |-> d[2]])
+              \/ /\ GeoOps < MAXNOPS
+                 /\ \E m \in DOMAIN net : MirrorOn(m) /\ ops' = Append(ops, [op |-> "mirror", m |-> m])
+              \/ /\ GeoOps < MAXNOPS
+                 /\ \E m \in DOMAIN net : \E s \in {1, 2} : AssignOn(m, Shapes[s]) /\ ops' = Append(ops, [op |-> "assign", m |-> m, rects |-> Shapes[s]])
+              \/ /\ GeoOps >= 1
+                 /\ \E m \in DOMAIN net : RecModOn(m) /\ ops' = Append(ops, [op |-> "rec", m |-> m])
+              \/ /\ GeoOps >= 1
+                 /\ RecAllOn /\ ops' = Append(ops, [op |-> "recall"])
+EmitNet == /\ EMIT /\ pc = "net" /\ Ended
+           /\ PrintT(ToJson([kind |-> "net", ops |-> ops]))
+           /\ pc' = "emitted" /\ UNCHANGED <<rects, roles, given, result, nvars>>
+
+Next == AddRect \/ Permute \/ Recognise \/ Emit \/ NetStep \/ EmitNet
 Spec == Init /\ [][Next]_vars
 
 (***************************************************************************)
 (* INVARIANTS                                                              *)
 (***************************************************************************)
-TypeOK == /\ pc \in {"build", "done", "emitted"}
+TypeOK == /\ pc \in {"build", "done", "emitted", "net"}
           /\ Len(rects) <= MAXR /\ Len(roles) = Len(rects)
           /\ \A k \in DOMAIN rects : rects[k] \in LatticeRects /\ roles[k] \in Roles
           /\ result \in {-1, 0, 1}
@@ -249,6 +325,16 @@ InvTrunkFirst  == pc = "done" => ClTrunkFirst(given.rects, result, ModelOut)
 InvSides       == pc = "done" => ClSides(given.rects, result, ModelOut)
 InvNoRoles     == pc = "done" => ClNoRoles(given.rects, result, ModelOut)
 InvReorderOnly == pc = "done" => ClReorderOnly(given.rects, result, ModelOut)
+
+\* netlist machine: a module recognised since its geometry last changed carries what its CURRENT rectangles deserve
+ModuleCurrent(md) ==
+  /\ md.ok = B2I(IsStog(md.rects))
+  /\ (md.ok = 1 => /\ md.roles[1] = TRUNK /\ TrunkAt(md.rects, 1)
+                   /\ \A k \in DOMAIN md.rects : k > 1 => (md.roles[k] \in Sides /\ AbutsOn(R(md.rects[1]), R(md.rects[k]), md.roles[k])))
+  /\ (md.ok = 0 => \A k \in DOMAIN md.rects : md.roles[k] = NOPOLY)
+InvNetCurrent == pc = "net" => \A m \in DOMAIN net : net[m].cur = 1 => ModuleCurrent(net[m])
+\* after Netlist.create_stogs() every module is current; after Module.create_stog() the module is
+InvRecAllCovers == (pc = "net" /\ ops[Len(ops)].op = "recall") => \A m \in DOMAIN net : net[m].cur = 1
 
 \* lemmas that tie the two definitions together.  They speak about ordered pairs of rectangles; every
 \* ordered pair of lattice rectangles is the two-element list of some state, so checking there is exhaustive.
